@@ -3,6 +3,8 @@
 
 from jax2onnx._compat.jax import JaxprEqn
 import jax
+import numpy as np
+import onnx_ir as ir
 
 from jax2onnx.converter.typing_support import LoweringContextProtocol
 from jax2onnx.plugins._post_check_onnx_graph import expect_graph as EG
@@ -24,7 +26,9 @@ from jax2onnx.plugins.plugin_system import PrimitiveLeafPlugin, register_primiti
     testcases=[
         {
             "testcase": "round",
-            "callable": lambda x: jax.lax.round(x),
+            "callable": lambda x: jax.lax.round(
+                x, jax.lax.RoundingMethod.TO_NEAREST_EVEN
+            ),
             "input_shapes": [(3,)],
             "post_check_onnx_graph": EG(
                 ["Round:3"],
@@ -46,7 +50,54 @@ class RoundPlugin(PrimitiveLeafPlugin):
         if getattr(out_spec, "producer", None) is not None:
             desired_name = ctx.fresh_name("round_out")
 
-        result = ctx.builder.Round(x_val, _outputs=[desired_name])
+        rounding_method = eqn.params.get("rounding_method")
+        away_from_zero = (
+            rounding_method is not None
+            and getattr(rounding_method, "name", str(rounding_method))
+            == "AWAY_FROM_ZERO"
+        )
+        if not away_from_zero:
+            # ONNX Round rounds halfway cases to the nearest even integer.
+            result = ctx.builder.Round(x_val, _outputs=[desired_name])
+            result.type = out_spec.type
+            result.shape = out_spec.shape
+            ctx.bind_value_for_var(out_var, result)
+            return
+
+        # lax.round's default rounds halfway cases away from zero:
+        #   t = sign(x) * floor(|x|); frac = |x - t| (exact)
+        #   result = t + sign(x) where frac == 0.5, Round(x) elsewhere.
+        def _stamp(value):
+            value.type = x_val.type
+            value.shape = x_val.shape
+            return value
+
+        np_dtype = np.dtype(getattr(x_var.aval, "dtype", np.float32))
+        half = ctx.builder.add_initializer_from_scalar(
+            name=ctx.fresh_name("round_half"),
+            value=np.asarray(0.5, dtype=np_dtype),
+        )
+        sign = _stamp(ctx.builder.Sign(x_val, _outputs=[ctx.fresh_name("round_sign")]))
+        magnitude = _stamp(ctx.builder.Abs(x_val, _outputs=[ctx.fresh_name("round_abs")]))
+        floored = _stamp(
+            ctx.builder.Floor(magnitude, _outputs=[ctx.fresh_name("round_floor")])
+        )
+        truncated = _stamp(
+            ctx.builder.Mul(sign, floored, _outputs=[ctx.fresh_name("round_trunc")])
+        )
+        frac = _stamp(
+            ctx.builder.Sub(magnitude, floored, _outputs=[ctx.fresh_name("round_frac")])
+        )
+        is_half = ctx.builder.Equal(frac, half, _outputs=[ctx.fresh_name("round_is_half")])
+        is_half.type = ir.TensorType(ir.DataType.BOOL)
+        is_half.shape = x_val.shape
+        away = _stamp(
+            ctx.builder.Add(truncated, sign, _outputs=[ctx.fresh_name("round_away")])
+        )
+        nearest = _stamp(
+            ctx.builder.Round(x_val, _outputs=[ctx.fresh_name("round_nearest")])
+        )
+        result = ctx.builder.Where(is_half, away, nearest, _outputs=[desired_name])
         result.type = out_spec.type
         result.shape = out_spec.shape
         ctx.bind_value_for_var(out_var, result)
